@@ -218,6 +218,27 @@ func findPresence(c *chk.Ctx, f *ssa.Function, table *types.Var, at ssa.Instruct
 			out = append(out, presence{call, c.P.Canon(call.Call.Args[idx]), call, true})
 		}
 	}
+	// through an exact look-up wrapper (a table type's method): the call is the look-up
+	ir.Instrs(f, func(ins ssa.Instruction) {
+		call, ok := ins.(*ssa.Call)
+		if !ok {
+			return
+		}
+		w, ok := wrapperCall(c, call, table, "lookup", "lookupok")
+		if !ok || w.keyIdx >= len(call.Call.Args) {
+			return
+		}
+		key := ir.NormCell(call.Call.Args[w.keyIdx])
+		for _, cd := range conds {
+			if w.kind == "lookupok" {
+				if e, ok := cd.V.(*ssa.Extract); ok && e.Tuple == ssa.Value(call) && e.Index == 1 && cd.Truth {
+					out = append(out, presence{call, key, nil, false})
+				}
+			} else if x, eq, ok := ir.NilCompare(cd.V); ok && x == ssa.Value(call) && eq != cd.Truth {
+				out = append(out, presence{call, key, call, false})
+			}
+		}
+	})
 	ir.Instrs(f, func(ins ssa.Instruction) {
 		lk, ok := ins.(*ssa.Lookup)
 		if !ok || !chk.LoadsField(lk.X, table) {
@@ -292,6 +313,12 @@ func ruleTokenWrite(c *chk.Ctx, owner string) {
 			ir.Instrs(f, func(ins ssa.Instruction) {
 				if call, ok := isDeleteOn(ins, s.table); ok && ir.NormCell(call.Call.Args[1]) == p.key && ir.InstrDominates(call, s.send) && ir.InstrDominates(p.lookup, call) {
 					del = call
+				}
+				// the removal through a table type's method
+				if call, isCall := ins.(*ssa.Call); isCall {
+					if w, ok := wrapperCall(c, call, s.table, "delete"); ok && w.keyIdx < len(call.Call.Args) && ir.NormCell(call.Call.Args[w.keyIdx]) == p.key && ir.InstrDominates(call, s.send) && ir.InstrDominates(p.lookup, call) {
+						del = call
+					}
 				}
 			})
 			if del == nil && !p.taken {
@@ -622,54 +649,74 @@ func ruleTokenRegister(c *chk.Ctx, owner string) {
 				c.Fail("TOKEN.register", f, owner+" registration", mu.Pos(), "the table key is not the registered Response's id")
 				return
 			}
-			// a watcher goroutine for the same Response is started right after (same critical section)
-			var watcher *ssa.Go
-			ir.Instrs(f, func(i2 ssa.Instruction) {
-				g, ok := i2.(*ssa.Go)
-				if !ok || !ir.InstrDominates(mu, g) {
-					return
-				}
-				for _, a := range g.Call.Args {
-					if ir.SameValue(a, resp) {
-						watcher = g
-					}
-					// the Response handed over inside a record (a "pending call" struct)
-					if rb, _, isProj := projection(resp); isProj {
-						if rb == ir.NormCell(a) || ir.SameValue(rb, a) {
-							watcher = g
-						}
-						// the record kept in a local variable: the argument is a load of the whole
-						// variable, the Response a load of one of its fields
-						if u, isU := a.(*ssa.UnOp); isU && u.Op == token.MUL && u.X == rb {
-							watcher = g
-						}
+			// the registration as its function sees it: the map update, or — when it is made by a
+			// table type's exact wrapper — each call of the wrapper, with the call's argument as
+			// the Response
+			type regSite struct {
+				f    *ssa.Function
+				at   ssa.Instruction
+				resp ssa.Value
+			}
+			sites := []regSite{{f, mu, resp}}
+			if w, isW := exactWrapper(c, f, table); isW && w.kind == "update" {
+				sites = nil
+				for _, cs := range c.P.Callers(f) {
+					if w.valIdx < len(cs.Instr.Common().Args) {
+						sites = append(sites, regSite{cs.Caller, cs.Instr, ir.NormCell(cs.Instr.Common().Args[w.valIdx])})
 					}
 				}
-			})
-			if watcher == nil {
-				c.Fail("TOKEN.register", f, owner+" registration", mu.Pos(), "no context watcher is started for the registered Response: if no reply arrives the caller would block after its context ends")
-				return
 			}
-			if ok, at := (ir.PathQuery{Goal: func(i ssa.Instruction) bool { return i == ssa.Instruction(watcher) }}).MustReach(mu); !ok {
-				where := ""
-				if at != nil {
-					where = " (a path leaves at " + c.P.Pos(at.Pos()) + ")"
-				}
-				c.Fail("TOKEN.register", f, owner+" registration", watcher.Pos(), "the watcher for the registered Response is not started on every path after the registration%s: a request whose watcher is missing is never completed when the owner stops", where)
-				return
-			}
-			gc := classifyOne(c, watcher)
-			if gc.kind != "watcher" {
-				c.Fail("TOKEN.register", f, owner+" registration", watcher.Pos(), "the goroutine started for the registered Response is not a context watcher with a guaranteed release: %s", gc.detail)
-				return
-			}
-			for _, ins := range between(mu, watcher) {
-				if releases(c, ins, lock) {
-					c.Fail("TOKEN.register", f, owner+" registration", mu.Pos(), "the lock can be released between registration and the start of the watcher")
+			for _, rs := range sites {
+				f, mu, resp := rs.f, rs.at, rs.resp
+				// a watcher goroutine for the same Response is started right after (same critical section)
+				var watcher *ssa.Go
+				ir.Instrs(f, func(i2 ssa.Instruction) {
+					g, ok := i2.(*ssa.Go)
+					if !ok || !ir.InstrDominates(mu, g) {
+						return
+					}
+					for _, a := range g.Call.Args {
+						if ir.SameValue(a, resp) {
+							watcher = g
+						}
+						// the Response handed over inside a record (a "pending call" struct)
+						if rb, _, isProj := projection(resp); isProj {
+							if rb == ir.NormCell(a) || ir.SameValue(rb, a) {
+								watcher = g
+							}
+							// the record kept in a local variable: the argument is a load of the whole
+							// variable, the Response a load of one of its fields
+							if u, isU := a.(*ssa.UnOp); isU && u.Op == token.MUL && u.X == rb {
+								watcher = g
+							}
+						}
+					}
+				})
+				if watcher == nil {
+					c.Fail("TOKEN.register", f, owner+" registration", mu.Pos(), "no context watcher is started for the registered Response: if no reply arrives the caller would block after its context ends")
 					return
 				}
+				if ok, at := (ir.PathQuery{Goal: func(i ssa.Instruction) bool { return i == ssa.Instruction(watcher) }}).MustReach(mu); !ok {
+					where := ""
+					if at != nil {
+						where = " (a path leaves at " + c.P.Pos(at.Pos()) + ")"
+					}
+					c.Fail("TOKEN.register", f, owner+" registration", watcher.Pos(), "the watcher for the registered Response is not started on every path after the registration%s: a request whose watcher is missing is never completed when the owner stops", where)
+					return
+				}
+				gc := classifyOne(c, watcher)
+				if gc.kind != "watcher" {
+					c.Fail("TOKEN.register", f, owner+" registration", watcher.Pos(), "the goroutine started for the registered Response is not a context watcher with a guaranteed release: %s", gc.detail)
+					return
+				}
+				for _, ins := range between(mu, watcher) {
+					if releases(c, ins, lock) {
+						c.Fail("TOKEN.register", f, owner+" registration", mu.Pos(), "the lock can be released between registration and the start of the watcher")
+						return
+					}
+				}
+				c.Pass("TOKEN.register", f, owner+" registration", mu.Pos(), "registered under %s with key = Response.id, and a context watcher (%s) started for the same Response before the lock is released", lock, gc.detail)
 			}
-			c.Pass("TOKEN.register", f, owner+" registration", mu.Pos(), "registered under %s with key = Response.id, and a context watcher (%s) started for the same Response before the lock is released", lock, gc.detail)
 		})
 	}
 	if n != 1 {
